@@ -9,13 +9,13 @@ fn strategy() -> BoxedStrategy<ConcCase> {
         8 => any::<u16>().prop_map(Job::Resolve),
         1 => (0u8..2).prop_map(Job::Start),
         1 => Just(Job::Noop),
-        1 => Just(Job::View),
+        2 => Just(Job::View),
     ];
-    let cfg = GenCfg { abortable: false, task_aborts: false, retaining: false, max_acts: 1, ..GenCfg::standard() };
-    (universe(cfg), prop::collection::vec(prop::collection::vec(job, 2..4), 1..7), prop::collection::vec((any::<u8>(), any::<u8>()), 0..80))
-        .prop_map(|(mut universe, phases, choices)| {
+    let cfg = GenCfg { abortable: false, task_aborts: false, retaining: false, max_acts: 1, scale: false, ..GenCfg::standard() };
+    (universe(cfg), prop::collection::vec(prop::collection::vec(job, 2..4), 1..7), prop::collection::vec((any::<u8>(), any::<u8>()), 0..80), proptest::bool::weighted(0.3))
+        .prop_map(|(mut universe, phases, choices, park_in_app)| {
             universe.acts.clear();
-            ConcCase { universe, phases, choices }
+            ConcCase { universe, phases, choices, park_in_app }
         })
         .boxed()
 }
@@ -25,13 +25,19 @@ pub fn main(mode: Mode) {
     let stats = Stats::new();
     let check = |c: &ConcCase| -> Result<(), String> {
         let info = run_conc(c)?;
-        let nt = info.wake_inside_eviction_window || info.executor_overlap;
+        let nt = info.wake_inside_eviction_window || info.executor_overlap || info.held_in_app_while_other_ran;
         let mut labels = vec![];
         if info.wake_inside_eviction_window {
             labels.push("sched:wake-inside-eviction-window");
         }
         if info.executor_overlap {
             labels.push("sched:executor-overlap");
+        }
+        if info.held_in_app_while_other_ran {
+            labels.push("sched:held-inside-view-or-update-while-another-worker-ran");
+        }
+        if info.forced_releases > 0 {
+            labels.push("sched:lock-holder-let-go-because-the-other-worker-blocked");
         }
         if info.concurrent_phases > 0 {
             labels.push("phase:concurrent");
@@ -72,9 +78,9 @@ pub fn main(mode: Mode) {
                 Report {
                     prop,
                     tier,
-                    rule: "universes (command API, depth <= 3, no aborts) x 1-6 phases of 2-3 concurrent shell calls on one Core (resolutions of distinct live requests, shell events, view reads), each call on its own thread, under a harness-owned schedule: crux_core's verif points park every thread, a generated run-length-encoded choice list (<= 80 entries, then round-robin) releases one at a time; the totally ordered witness trace of each phase is replayed on the reference runtime and the per-phase obligations are checked (nothing runnable, nothing discarded while alive, every effect returned by exactly one call, view = applied events, concurrent view reads are prefixes, quiescent afterwards); non-trivial = a worker was held between a command task's poll and its eviction decision while another worker passed a waker step, or held at an executor point while another worker ran the executor; distinct = distinct case",
+                    rule: "universes (command API, depth <= 3, no aborts) x 1-6 phases of 2-3 concurrent shell calls on one Core (resolutions of distinct live requests, shell events, view reads), each call on its own thread, under a harness-owned schedule: crux_core's verif points park every thread, a generated run-length-encoded choice list (<= 80 entries, then round-robin) releases one at a time; in 30 % of the cases workers are also parked inside the app's view / update, i.e. while holding the model lock (a worker that then blocks on that lock is detected by its silence and the holder is let go); the totally ordered witness trace of each phase is replayed on the reference runtime and the per-phase obligations are checked (nothing runnable, nothing discarded while alive, every effect returned by exactly one call, view = applied events, concurrent view reads are prefixes, quiescent afterwards); non-trivial = a worker was held between a command task's poll and its eviction decision while another worker passed a waker step, or held at an executor point while another worker ran the executor, or held inside view / update while another worker ran; distinct = distinct case",
                     assumptions: vec![
-                        "schedule points are outside every crux lock; a traced task poll is one atomic schedule step".into(),
+                        "schedule points in crux are outside every crux lock; a traced task poll is one atomic schedule step; the points inside the test app's view / update are reached while the model lock is held, and a 15 ms silence of the released worker is read as 'blocked on that lock' (this affects only which schedules are explored, never a verdict)".into(),
                         "memory-ordering effects below the granularity of the schedule points are not explored".into(),
                         "typed Core API only (the bridge holds its registry lock across a wake)".into(),
                     ],
